@@ -4,23 +4,24 @@
 (* (Space.validate, Choices.validate, Float.validate,                      *)
 (* CustomDecisionPoint.validate) as an acceptor of raw trees, in two       *)
 (* variants selected by AsCoded:                                           *)
-(*   TRUE   today's rules: only `value >= len(candidates)` is tested       *)
-(*          (Python then indexes candidates[value], negative values wrap), *)
-(*          the value of a multi-choice / multi-element node is ignored    *)
-(*   FALSE  the intended rules: 0 <= value < len, such nodes carry no value*)
+(*   TRUE   today's rules: the value of a multi-choice / multi-element  *)
+(*          node is ignored (finding C11-F2).  Until fix 0d51b25 the index *)
+(*          test was only `value >= len(candidates)`, negative values      *)
+(*          wrapped (C11-F1, fixed): both variants now require 0 <= value. *)
+(*   FALSE  the intended rules: such nodes carry no value                  *)
 (* TLC searches the one-step corruptions of every valid DNA for a tree the *)
 (* acceptor takes although it is not in Valid (NoGap).  The as-coded       *)
-(* variant is EXPECTED to fail: TLC's counter-example is the negative      *)
-(* index, which the observed-relation check then meets on the real code.   *)
+(* variant is EXPECTED to fail: TLC's counter-example is a stray value,    *)
+(* which the observed-relation check then meets on the real code.          *)
 (***************************************************************************)
 EXTENDS Geno
 
 CONSTANT AsCoded
 
 IsInt(t) == TKind(t) = "i"
-\* candidates[v] with Python semantics: 0-based, negative wraps, out of range raises (= reject)
-InRange(v, n) == IF AsCoded THEN v < n /\ v >= -n ELSE v >= 0 /\ v < n
-PyIdx(v, n) == IF v >= 0 THEN v + 1 ELSE v + n + 1
+\* candidates[v], 0-based
+InRange(v, n) == v >= 0 /\ v < n
+PyIdx(v, n) == v + 1
 
 RECURSIVE AccSpace(_,_)
 RECURSIVE AccDP(_,_)
